@@ -15,6 +15,7 @@ import (
 
 	"go.1password.io/spg"
 	"verif/harness/core"
+	"verif/harness/tape"
 )
 
 // ---------- C01: bounded draws are exactly uniform ----------
@@ -367,6 +368,21 @@ func c01Run(c *core.Ctx) {
 		}
 	}
 	c01Boundary(c, draw)
+	// "whenever a generator picks one of n alternatives (a position, a coin
+	// flip)": every alternative must be selectable. The single-deviation
+	// coverage exploration of C04 for the capitalisation choices of long
+	// recipes (a coin or a position whose alternative no raw word selects).
+	tape.Reset()
+	tape.Install(nil)
+	for _, L := range []int{17, 33, 65, 130} {
+		for _, cp := range []string{"random", "one"} {
+			for _, ws := range [][]string{{"ab"}, {"ab", "cd", "efg"}} {
+				if c.Mine() {
+					c04Coverage(c, WLCase{Words: ws, Length: L, Cap: cp, Sep: Sep{Kind: "none"}})
+				}
+			}
+		}
+	}
 }
 
 // second layer: many more bounds on a boundary word set, necessary conditions
